@@ -10,7 +10,11 @@ EXPLANATION = ("G1 on every path of the frame decoder, `Ok(None)` (need more byt
                "that got past the parser consumes exactly once, by `buf.advance(buf.len() - rest.len())` where rest is the remainder "
                "component of that very parser result, and the parser is applied to the whole buffer; G3 every nom primitive reachable "
                "from the TLV parser (MIR call graph) is the `streaming` variant, so a short buffer yields Incomplete rather than an error "
-               "or a truncated value, and the empty buffer is mapped to Incomplete; G4 the codec keeps no state across calls in this "
+               "or a truncated value; the streaming entry point Parser::parse, evaluated once per value of the first length octet with the other octets and the "
+               "number of octets buffered symbolic, is on every path the TLV parser applied to the caller's input, or a test of its own that answers "
+               "Incomplete under a condition which contradicts len(input) >= identifier octet + length octets + announced length (the empty buffer, a lone "
+               "identifier octet, a length field that has not arrived - where the TLV parser would ask for more as well); an answer of its own that is not "
+               "Incomplete, or Incomplete for a buffer that may hold the whole element, is a violation however the pre-tests are spelled; G4 the codec keeps no state across calls in this "
                "configuration and Decoder::decode is the frame decoder applied to the caller's buffer; G7 (gssapi configuration, where the "
                "codec carries the SASL token layer) every error path of Decoder::decode is the frame decoder's own answer or the failure "
                "of the unwrap primitive - a shortfall of buffered bytes is never an error - and a literal Ok(None) path has not touched "
@@ -132,14 +136,13 @@ def run(ctx):
     bad = sorted(p for p in prims if '::complete::' in p)
     ctx.add('G3.streaming-primitives', 'lber::parse', '', not bad, 'non-streaming nom primitives in the TLV parser (a short buffer would be an error or a truncated value): %s' % bad)
     ctx.floor('G3', 'nom primitives in the TLV parser cone', len(prims), 3)
+    # the streaming entry point, on its paths per class of header (rules/wrapper.py, check_parser_entry): it is the TLV parser applied
+    # to the caller's input; a test of its own may answer Incomplete only where the element cannot be complete (the empty buffer, an
+    # identifier octet alone, a length field that has not arrived), and nothing but Incomplete while octets are missing
+    import wrapper
     P = hirq.Body(f, f.body('lber::parse::Parser::parse'))
-    pouts = absx.Interp(f, P).run()
-    ok = False
-    for o in pouts:
-        emp = next((t for a, t in o.st.pc if a[0] == 'call' and a[1].endswith('::is_empty') and a[2][0] == ('param', 'input')), None)
-        if emp is True:
-            ok = o.val[0] == 'ctor' and o.val[1] == 'Err' and o.val[2][0][0] == 'ctor' and o.val[2][0][1].endswith('Err::Incomplete')
-    ctx.add('G3.empty-buffer-is-incomplete', 'Parser::parse', loc(P.root), ok, 'an empty buffer must be reported as Incomplete')
+    ctx.analysed['bodies'].add(P.path)
+    wrapper.check_parser_entry(ctx, f, P, 'lber::parse::parse_tag', 'G3')
 
     # ---- G4 no cross-call state
     codec = f.items.get('ldap3::protocol::LdapCodec')
@@ -147,7 +150,6 @@ def run(ctx):
     dec = [it['path'] for it in f.items_all if it.get('kind') == 'AssocFn' and it.get('impl_trait_def') == 'tokio_util::codec::decoder::Decoder' and it['path'].endswith('::decode')]
     D = hirq.Body(f, f.body(anchors.one('Decoder::decode', dec)))
     ctx.analysed['bodies'].add(D.path)
-    import wrapper
     if not fields:
         ctx.ok('G4.stateless-codec', 'LdapCodec', '', 'the codec has no fields in this configuration')
         if D.path == dp:
